@@ -33,7 +33,11 @@ func coqIface(typeKey string) string { return strings.ReplaceAll(strings.Replace
 // warmTerm is the Coq term of the warm-up of a strategy configuration: the Shift a base strategy applies
 // to its actions; the minimum over the wrapped strategies for And/Or/Majority/Split/MacdRsi; the inner
 // strategy's for decorators (mirrors the definitions the theorems of Props/C05.v are stated with).
-func warmTerm(sp *Spec) (string, error) {
+func warmTerm(sp *Spec) (string, error) { return warmTermWith(sp, "Z.min") }
+
+// warmTermWith: comb = "Z.min" for the action contract (C05), "Z.max" for reports (C14: every column of every wrapped
+// strategy is past its own warm-up).
+func warmTermWith(sp *Spec, comb string) (string, error) {
 	gc := genCtors[sp.Ctor]
 	_, cfg, err := sp.Build()
 	if err != nil {
@@ -44,7 +48,7 @@ func warmTerm(sp *Spec) (string, error) {
 		var subs []string
 		for _, a := range sp.Args {
 			for k := range a.List {
-				w, err := warmTerm(&a.List[k])
+				w, err := warmTermWith(&a.List[k], comb)
 				if err != nil {
 					return "", err
 				}
@@ -56,23 +60,23 @@ func warmTerm(sp *Spec) (string, error) {
 		}
 		t := subs[0]
 		for _, w := range subs[1:] {
-			t = fmt.Sprintf("(Z.min %s %s)", t, w)
+			t = fmt.Sprintf("(%s %s %s)", comb, t, w)
 		}
 		return t, nil
 	case "strategy.SplitStrategy":
-		a, err := warmTerm(sp.Args[0].Sub)
+		a, err := warmTermWith(sp.Args[0].Sub, comb)
 		if err != nil {
 			return "", err
 		}
-		b, err := warmTerm(sp.Args[1].Sub)
+		b, err := warmTermWith(sp.Args[1].Sub, comb)
 		if err != nil {
 			return "", err
 		}
-		return fmt.Sprintf("(Z.min %s %s)", a, b), nil
+		return fmt.Sprintf("(%s %s %s)", comb, a, b), nil
 	case "strategy/decorator.InverseStrategy", "strategy/decorator.NoLossStrategy", "strategy/decorator.StopLossStrategy":
-		return warmTerm(sp.Args[0].Sub)
+		return warmTermWith(sp.Args[0].Sub, comb)
 	case "strategy/compound.MacdRsiStrategy":
-		return fmt.Sprintf("(let m_ := %s in Z.min (warm_of %s) (warm_of %s))", cfg,
+		return fmt.Sprintf("(let m_ := %s in "+comb+" (warm_of %s) (warm_of %s))", cfg,
 			atF("strategy_trend_MacdStrategy_Compute", "(strategy_compound_MacdRsiStrategy_MacdStrategy m_)"),
 			atF("strategy_momentum_RsiStrategy_Compute", "(strategy_compound_MacdRsiStrategy_RsiStrategy m_)")), nil
 	}
